@@ -107,5 +107,13 @@ CHECKS["C14"] = dict(level="model_checking", design_ref="DESIGN.md 5/C14",
          "weights, overlaps, force bias, energy) for all walkers, fields, weights. n_batch independence of the measurement routines is "
          "decided under C01-C03.",
     note=_WF_NOTE + " exp/cos/angle/log uninterpreted (the equalities hold for every interpretation). Driver-level runs outside.")
-for k in ("C01","C02","C03","C04","C05","C07","C09","C13","C14","C15","C19","C20"): NA.pop(k, None)
+CHECKS["C11"] = dict(level="model_checking", design_ref="DESIGN.md 5/C11",
+    technique="symbolic execution of the traced jaxpr on index tables produced by the real get_excitations (enumerated lists) + z3 identities; path exploration of read_dets / get_fci_state on symbolic bytes / coefficients",
+    text="(a) overlap, force bias and AD local energy of multislater built by the real get_excitations/parity from enumerated determinant "
+         "lists (non-aufbau references, shuffled orders, two cut-offs) equal <psi|.|phi> with |psi> = sum c_i|D_i> for ALL coefficients and "
+         "walkers; (b) (E_L - E)<psi|phi> = sum_J ((Hc)_J - E c_J) phi_J for all c, E, walkers, Hamiltonians on full determinant spaces, so an "
+         "exact eigenvector gives E_L = E for every walker; (c) read_dets parses every byte pattern of a 2x3 file to exactly the written "
+         "state; (d) get_fci_state preserves determinants/coefficients and orders by |coeff|.",
+    note=_WF_NOTE + " pyscf's FCI solver and whole driver runs are outside; file model: header ints concrete, coefficients opaque reals, occupation bytes symbolic.")
+for k in ("C01","C02","C03","C04","C05","C07","C09","C11","C13","C14","C15","C19","C20"): NA.pop(k, None)
 ENGINES[0]["serves_properties"] = sorted(CHECKS)
